@@ -217,6 +217,13 @@ pub fn other_tamperings(parts: &Parts, fmt: Fmt, alg: Alg, second: Option<&str>,
             out.push(Tampered { desc: format!("signature truncated to {} chars", l), text: render_triple(parts, fmt, h, p, Some(&s[..l])), resolver: honest.clone(), triple: ((h).to_string(), (p).to_string(), Some((&s[..l]).to_string())) });
         }
     }
+    // 4b. something appended after the signature with a further '.' (a parser that only looks at the
+    // first three segments would verify the untouched prefix)
+    for (name, extra) in [("a bare '.'", "".to_string()), ("a '.' and a short segment", "AAAA".to_string()), ("a '.' and a second copy of the signature", s.to_string())] {
+        let ns = format!("{}.{}", s, extra);
+        out.push(Tampered { desc: format!("signature followed by {}", name), text: render_triple(parts, fmt, h, p, Some(&ns)), resolver: honest.clone(), triple: (h.to_string(), p.to_string(), Some(ns.clone())) });
+    }
+    out.push(Tampered { desc: "header preceded by an extra segment".into(), text: render_triple(parts, fmt, &format!("AAAA.{}", h), p, Some(s)), resolver: honest.clone(), triple: (format!("AAAA.{}", h), p.to_string(), Some(s.to_string())) });
     // 5. alg rewritten
     let msg_with = |nh: &str| format!("{}.{}", nh, p);
     let hdr = |v: Value| b64e(v.to_string().as_bytes());
